@@ -35,6 +35,8 @@ func init() {
 }
 
 func runC08(c *an.Ctx) {
+	c.Floor("C08-R8", 3)
+	ecsHopToHop(c, "C08-R8")
 	c.Floor("C08-R1", 5)
 	c.Floor("C08-R2", 1)
 	c.Floor("C08-R3", 2)
